@@ -98,6 +98,7 @@ type gField struct {
 	shape     bool     // geo-shape field: its encoded shape is one more doc-value term of the document
 	comp      bool     // composite field (delivered through VisitComposite, like bleve's _all)
 	locField  string   // the locations of its hits name this (existing) field instead of the field itself
+	dvSym     bool     // (with dv) the doc-values option of each occurrence is symbolic: the field has doc values - for every document - as soon as one occurrence in the batch asks for them
 	noTVOpt   bool     // locations are delivered although the field's options lack IncludeTermVectors (bleve's default composite field)
 	locFields []string // (with maxLocs > 1) the i-th location of a hit names locFields[i%len]; "" = the field itself
 }
@@ -154,6 +155,12 @@ func (g *gen) aps(name string, n int) []uint64 {
 	return out
 }
 
+type sPendingDV struct {
+	ds *sDocSpec
+	fi int
+	dv sDV
+}
+
 // vGenBatch draws a batch from symbolic inputs and returns it with its reference semantics.
 func vGenBatch(cfg gCfg) ([]index.Document, *sSpec) {
 	g := &gen{cfg: cfg}
@@ -162,6 +169,8 @@ func vGenBatch(cfg gCfg) ([]index.Document, *sSpec) {
 	idDV := cfg.idDV && cfg.nDocs > 0 && vBool(cfg.prefix+"idDV")
 	nameSet := map[string]bool{}
 	var names []string
+	dvAsked := map[int]bool{}
+	var pendingDV []sPendingDV
 	for d := 0; d < cfg.nDocs; d++ {
 		id := fmt.Sprint(cfg.idBase, d)
 		ds := &sDocSpec{id: id}
@@ -274,8 +283,9 @@ func vGenBatch(cfg gCfg) ([]index.Document, *sSpec) {
 				if gf.tv && !gf.noTVOpt {
 					opts |= index.IncludeTermVectors
 				}
-				if gf.dv {
+				if gf.dv && (!gf.dvSym || vBool(fmt.Sprint(cfg.prefix, "dvo", tag))) {
 					opts |= index.DocValues
+					dvAsked[fi] = true
 				}
 				var val []byte
 				var ap []uint64
@@ -329,11 +339,21 @@ func vGenBatch(cfg gCfg) ([]index.Document, *sSpec) {
 				if gf.shape {
 					dvTerms = append(dvTerms, shapeTerm)
 				}
-				ds.dv = append(ds.dv, sDV{field: gf.name, terms: dvTerms})
+				if gf.dvSym {
+					pendingDV = append(pendingDV, sPendingDV{ds, fi, sDV{field: gf.name, terms: dvTerms}})
+				} else {
+					ds.dv = append(ds.dv, sDV{field: gf.name, terms: dvTerms})
+				}
 			}
 		}
 		docs = append(docs, doc)
 		sp.docs = append(sp.docs, ds)
+	}
+	// fields whose doc-values option was symbolic per occurrence: doc values for every document iff some occurrence asked
+	for _, pd := range pendingDV {
+		if dvAsked[pd.fi] {
+			pd.ds.dv = append(pd.ds.dv, pd.dv)
+		}
 	}
 	// alphabet terms of configured fields are known to the spec even if the field never occurs
 	for _, gf := range cfg.fields {
@@ -345,8 +365,8 @@ func vGenBatch(cfg gCfg) ([]index.Document, *sSpec) {
 	if cfg.nDocs > 0 {
 		sort.Strings(names)
 		sp.fields = append([]string{"_id"}, names...)
-		for _, gf := range cfg.fields {
-			if gf.dv && nameSet[gf.name] {
+		for fi, gf := range cfg.fields {
+			if gf.dv && nameSet[gf.name] && (!gf.dvSym || dvAsked[fi]) {
 				sp.dvFields = append(sp.dvFields, gf.name)
 			}
 		}
